@@ -62,6 +62,7 @@ import (
 //	dice   Kids = [count|none, sides|none, modArg|none, min|none, max|none], S = modifier
 //	       ("" "k" "q" "kh" "kl" "dh" "dl" "adv" "dis"); Q = 1 upper-case D
 //	fate
+//	xdice  S = operand text of a registered custom dice syntax, printed verbatim (C17; never drawn by the generators)
 //	coc    S = "b"|"p", Kids = [n|none]
 //	wod    Kids = [pool|none, addline, mods…]; mods are "dmod" nodes S = "m"|"k"|"q", Kids = [v]
 //	dc     Kids = [pool, crit, mods…]; mods are "dmod" S = "m"
